@@ -258,9 +258,6 @@ func Check(c Case) error {
 				ms, err := cp.Re.FindStringMatchStartingAt(str, byteOffs[at])
 				if err == nil {
 					if gs := canon.FromMatch(cp.Re, ms).String(); gs != exp {
-						if known.RE2IgnoreCaseNotWord("c01-re2-ignorecase-notword", c.AST, c.RE2, str) {
-							continue
-						}
 						return fail(c, in, at, fmt.Sprintf("FindStringMatchStartingAt (byte offset %d) %s, reference %s", byteOffs[at], gs, exp))
 					}
 				}
@@ -274,9 +271,6 @@ func Check(c Case) error {
 					m2, err := cp2.Re.FindRunesMatchStartingAt(in, at)
 					return err == nil && canon.FromMatch(cp2.Re, m2).String() == exp
 				}) {
-					continue
-				}
-				if known.RE2IgnoreCaseNotWord("c01-re2-ignorecase-notword", c.AST, c.RE2, string(in)) {
 					continue
 				}
 				return fail(c, in, at, fmt.Sprintf("engine %s, reference %s", got, exp))
